@@ -120,6 +120,16 @@ where
 }
 
 
+
+#[cfg(feature = "verif")]
+pub fn verif_partition_i64(left: &[i64], right: &[i64], limit: usize, desc: bool) -> Vec<Premerge> {
+    if desc {
+        partition::<i64, CmpGreaterThan>(left, right, limit)
+    } else {
+        partition::<i64, CmpLessThan>(left, right, limit)
+    }
+}
+
 #[cfg(test)]
 mod tests {
     use crate::mem_store::Val;
